@@ -85,6 +85,8 @@ def ask(label, scheme):
         except TypeError as e:
             return "arity", "TypeError: %s" % str(e)[:200]
         except Exception as e:
+            if base.harness_exc(e):
+                raise
             return "total", "%s: %s" % (type(e).__name__, str(e)[:200])
     if isinstance(ans, bool) or type(ans).__name__ in ("bool_", "bool"):
         return "bool", bool(ans)
@@ -236,6 +238,8 @@ def check_case(case):
             try:
                 why = algs.well_formed(p, universe, one)
             except Exception as e:
+                if base.harness_exc(e):
+                    raise
                 why = "result is not a list of rankings of buckets: %s: %s" % (type(e).__name__, e)
             if why is not None:
                 clause = "C14.wellformed.types" if base.only_types_differ(p, universe, one) else "C14.wellformed"
